@@ -200,6 +200,19 @@ def check(ctx, src):
         ctx.check(shows is not None and retf, "REPL-ERR", f"{REL}|REPL.runsource|except {norm(h.type)}", "handler must display the error and return False", REL, h.lineno,
                   detail="shows error, returns False")
 
+    check_cont(ctx, src, mod)
+    from . import c19
+    from .. import readerq
+
+    ctx.rule("PEOI-GUARD", "PrematureEndOfInput (= ask for more input) is raised only after observing the end of input, so a complete but invalid text is never reported as incomplete")
+    c19.check_peoi_guard(ctx, readerq.Reader(src))
+    ctx.floor("REPL-ERR", 10)
+    ctx.floor("REPL-CONT", 4)
+
+
+def check_cont(ctx, src, mod=None):
+    """REPL continuation routing (shared with C19)."""
+    mod = mod or src.py(REL)
     # --- continuation routing ----------------------------------------------------------------------
     hc = mod.func("HyCompile.__call__")
     ctx.require(hc is not None, "HyCompile.__call__ not found")
@@ -234,8 +247,6 @@ def check(ctx, src):
               witness="the REPL reports an error for `(+ 1` instead of prompting `... `", detail="except PrematureEndOfInput: if not allow_incomplete: raise")
     sup = pyq.contains(cc, lambda n: isinstance(n, ast.Return) and isinstance(n.value, ast.Call) and "super().__call__" in norm(n.value))
     ctx.check(sup is not None, "REPL-CONT", f"{REL}|HyCommandCompiler.__call__|delegates", "does not return super().__call__(...)", REL, cc.lineno, detail="returns super().__call__")
-    ctx.floor("REPL-ERR", 10)
-    ctx.floor("REPL-CONT", 4)
 
 
 PEOI_SUPERS = {"PrematureEndOfInput", "LexException", "HySyntaxError", "HyLanguageError", "HyError", "SyntaxError", "Exception"}
